@@ -68,7 +68,18 @@ func run(r *mon.Report, tier string, idx int, rng *rand.Rand) {
 			_ = e.API.Raw.Delete(context.Background(), nc)
 		}
 	}
+	volumesOn = rng.Intn(10) < 3
+	volEnv = e
+	if volumesOn {
+		setupVolumes(rng, s)
+	}
 	batch := s.Pending(rng, 1+rng.Intn(12), cfg.Pod)
+	if volumesOn {
+		attachVolumes(rng, s, batch)
+		sigExtra = "+volumes"
+	} else {
+		sigExtra = ""
+	}
 	if err := e.SyncState(); err != nil {
 		r.Inconcl("case %d: state sync error: %v", idx, err)
 		r.Eval()
@@ -93,7 +104,7 @@ func run(r *mon.Report, tier string, idx int, rng *rand.Rand) {
 	checkExisting(r, s, res, originals, caseDesc, sigParts)
 	checkNew(r, s, res, originals, caseDesc, sigParts, deleting)
 	if len(sigParts) > 0 {
-		r.Sig("%s|pp=%v|mv=%v|par=%v", strings.Join(common.SortedKeys(sigParts), "+"), optDesc["preferencePolicy"], optDesc["minValuesPolicy"], optDesc["parallelism"])
+		r.Sig("%s%s|pp=%v|mv=%v|par=%v", strings.Join(common.SortedKeys(sigParts), "+"), sigExtra, optDesc["preferencePolicy"], optDesc["minValuesPolicy"], optDesc["parallelism"])
 	}
 	if r.WantSample() && len(res.NewNodeClaims) > 0 {
 		r.Sample(map[string]any{"case": idx, "options": optDesc, "pools": s.Desc["pools"], "batch": podSummaries(batch), "existing_nodes": s.NodeInfo,
@@ -341,7 +352,13 @@ func checkExisting(r *mon.Report, s *common.Scenario, res provscheduling.Results
 		}
 		r.Count("placements_checked", len(placed))
 		r.Inc("concrete_nodes_materialised")
-		if ar := oracle.AdmitAllEx(cn, placed, others, pendingDaemons); !ar.OK {
+		ar := oracle.AdmitAllEx(cn, placed, others, pendingDaemons)
+		if ar.OK && volumesOn {
+			if why := volumeRefusal(e, cn, placed, others, true); why != "" {
+				ar = oracle.AdmitResult{OK: false, Why: why}
+			}
+		}
+		if !ar.OK {
 			r.Violate(violKey("existing-node-inadmissible", ar.Why, en.Pods, respects(s)), fmt.Sprintf("placement on existing node %s (%s) is not admissible: %s", en.Name(), kind, ar.Why), cs,
 				map[string]any{"node": cn, "placed": podSummaries(placed), "others": podNames(others)})
 		}
@@ -367,6 +384,8 @@ func respects(s *common.Scenario) bool {
 
 func classify(why string) string {
 	switch {
+	case strings.Contains(why, "volume"):
+		return "volume"
 	case strings.Contains(why, "host port"):
 		return "hostport"
 	case strings.Contains(why, "taint"):
@@ -532,7 +551,13 @@ func optionFeasible(r *mon.Report, nc *provscheduling.NodeClaim, it *cloudprovid
 					}
 				}
 				r.Inc("concrete_nodes_materialised")
-				if ar := oracle.AdmitAll(cn, placed, others); !ar.OK {
+				ar := oracle.AdmitAll(cn, placed, others)
+				if ar.OK && volumesOn {
+					if why := volumeRefusal(volEnv, cn, placed, nil, false); why != "" {
+						ar = oracle.AdmitResult{OK: false, Why: why}
+					}
+				}
+				if !ar.OK {
 					okAll = false
 					why = fmt.Sprintf("offering %s/%s labels=%v: %s", of.Zone(), of.CapacityType(), lbls, ar.Why)
 				}
